@@ -58,6 +58,12 @@ def shaped(g):
             out.append(("embed-tagged-%s-%s" % ("skip" if kind == "-" else "name", side),
                         g.pair(embeds=1.0, depth2=0.6, deep=0.9, embed_tag=1.0, embed_tag_side=side, embed_tag_kind=kind, embed_tag_namesake=ns,
                                diamond=0.0, selfembed=0.0, kinds=["same", "conv"], names=["ident"], n=(4, 6), shadow=0)))
+    # arrays: identical arrays are assigned, slice -> array / *array and array -> shorter array are not mapped
+    out.append(("arrays", mapgen.mk_spec([mapgen.F("Key", mapgen.SL(mapgen.U8)), mapgen.F("Pair", mapgen.SL(mapgen.INT)), mapgen.F("Sum", mapgen.ARR4), mapgen.F("One", mapgen.ARR4), mapgen.F("Name", mapgen.STR)],
+                                         [mapgen.F("Key", mapgen.ARR4), mapgen.F("Pair", mapgen.P(mapgen.ARR2I)), mapgen.F("Sum", mapgen.ARR4), mapgen.F("One", mapgen.ARR1), mapgen.F("Name", mapgen.STR)])))
+    for side in ("src", "dest"):
+        out.append(("field-like-embed-" + side, g.pair(n=(2, 4), embeds=0.5, field_like_embed=1.0, field_like_embed_side=side, diamond=0.0, selfembed=0.0,
+                                                       embed_tag=0.0, kinds=["same", "conv"], names=["ident"])))
     # the same struct type embedded twice at different depths: the shallower occurrence is the one that is mapped
     for side in ("src", "dest"):
         out.append(("embedded-twice-" + side, g.pair(embeds=1.0, depth2=1.0, deep=0.95, diamond=1.0, diamond_side=side, selfembed=0.0,
